@@ -134,3 +134,25 @@ Proof. exact pin_operations_copy_file. Qed.
 Print Assumptions C11_src_pin_operations_new.
 Print Assumptions C11_src_pin_parblock_queue_file_blocks.
 Print Assumptions C11_src_pin_operations_copy_file.
+
+(* ---- further functions on this property's path, pinned token for token as validated (dependency review after rounds 5 and 6:
+   each missed change had edited a pinned function that this property did not cite) ---- *)
+From XcpPins Require Import Pin_linux_lseek Pin_linux_copy_file_offset Pin_linux_copy_file_bytes Pin_linux_try_copy_file_range Pin_parblock_queue_file_range Pin_operations_finalise_copy.
+Theorem C11_src_pin_linux_lseek : pin_unchanged name_linux_lseek.
+Proof. exact pin_linux_lseek. Qed.
+Theorem C11_src_pin_linux_copy_file_offset : pin_unchanged name_linux_copy_file_offset.
+Proof. exact pin_linux_copy_file_offset. Qed.
+Theorem C11_src_pin_linux_copy_file_bytes : pin_unchanged name_linux_copy_file_bytes.
+Proof. exact pin_linux_copy_file_bytes. Qed.
+Theorem C11_src_pin_linux_try_copy_file_range : pin_unchanged name_linux_try_copy_file_range.
+Proof. exact pin_linux_try_copy_file_range. Qed.
+Theorem C11_src_pin_parblock_queue_file_range : pin_unchanged name_parblock_queue_file_range.
+Proof. exact pin_parblock_queue_file_range. Qed.
+Theorem C11_src_pin_operations_finalise_copy : pin_unchanged name_operations_finalise_copy.
+Proof. exact pin_operations_finalise_copy. Qed.
+Print Assumptions C11_src_pin_linux_lseek.
+Print Assumptions C11_src_pin_linux_copy_file_offset.
+Print Assumptions C11_src_pin_linux_copy_file_bytes.
+Print Assumptions C11_src_pin_linux_try_copy_file_range.
+Print Assumptions C11_src_pin_parblock_queue_file_range.
+Print Assumptions C11_src_pin_operations_finalise_copy.
